@@ -111,4 +111,102 @@ theorem nwin_eq (ns w ov : Nat) (hov : ov < w) : Src.C17.wg_nwin ns w ov = (Wind
     simp only []
     omega
 
+/-! ### `firstlast_splicing`: the amplitude vector of every window, as the source builds it
+
+The translated source is the sequence of NumPy operations on the amplitude vector (`ones(n)`, `amp[:k] = w`,
+`amp[s:] = flipud(w)`, `yield (first, last, amp)`).  `runOps` gives those operations their NumPy meaning (reading the
+vector index by index; a later assignment wins) and collects what the generator yields.  `splicing_eq`: for every
+admissible triple the yielded `(first, last, amp)` are exactly the model's windows with `Window.ampAt` — the object
+`splice_sum_one` is about. -/
+
+section splicing
+variable {α : Type} [OfNat α 1]
+
+/-- one vector operation, read at index `i` (`cur` = the value before it) -/
+def applyOp (ramp : Nat → α) (ov : Nat) (cur : α) (i : Nat) : String × List Int → α
+  | ("ones", [_]) => 1
+  | ("fadein", [k]) => if (i : Int) < k then ramp i else cur
+  | ("fadeout", [s]) => if s ≤ (i : Int) then ramp (ov - 1 - (i - s.toNat)) else cur
+  | _ => cur
+
+/-- run the operations; every `yield [first, last]` emits the current vector restricted to `last - first` entries -/
+def runOps (ramp : Nat → α) (ov : Nat) (amp : Nat → α) : List (String × List Int) → List (Int × Int × List α)
+  | [] => []
+  | ("yield", [f, l]) :: rest => (f, l, (List.range (l - f).toNat).map amp) :: runOps ramp ov amp rest
+  | op :: rest => runOps ramp ov (fun i => applyOp ramp ov (amp i) i op) rest
+
+/-- what the model says the generator yields -/
+def modelSplicing (ramp : Nat → α) (ns w ov : Nat) : List (Int × Int × List α) :=
+  (Window.firstlast ns w ov).map fun fl =>
+    ((fl.1 : Int), (fl.2 : Int), (List.range (fl.2 - fl.1)).map fun i => Window.ampAt ramp ns ov fl (fl.1 + i))
+
+/-- the four shapes of one window's operations, run to the yield -/
+theorem runOps_window (ramp : Nat → α) (ov : Nat) (amp0 : Nat → α) (f l k s : Int) (fin fout : Bool)
+    (rest : List (String × List Int)) :
+    runOps ramp ov amp0 (("ones", [l - f]) ::
+        ((if fin then [("fadein", [k])] else []) ++ (if fout then [("fadeout", [s])] else []) ++ ("yield", [f, l]) :: rest))
+      = (f, l, (List.range (l - f).toNat).map fun (i : Nat) =>
+          let a1 : α := 1
+          let a2 : α := if fin then (if (i : Int) < k then ramp i else a1) else a1
+          if fout then (if s ≤ (i : Int) then ramp (ov - 1 - (i - s.toNat)) else a2) else a2)
+        :: runOps ramp ov
+            (fun (i : Nat) =>
+              let a1 : α := 1
+              let a2 : α := if fin then (if (i : Int) < k then ramp i else a1) else a1
+              if fout then (if s ≤ (i : Int) then ramp (ov - 1 - (i - s.toNat)) else a2) else a2) rest := by
+  cases fin <;> cases fout <;> simp [runOps, applyOp]
+
+theorem aux_start_le (ns w ov first : Nat) (hf : first ≤ ns) :
+    ∀ fl ∈ Window.firstlastAux ns w ov first, fl.1 ≤ ns := by
+  fun_induction Window.firstlastAux ns w ov first with
+  | case1 first h ih =>
+    intro fl hfl
+    rcases List.mem_cons.mp hfl with rfl | hfl
+    · simpa using hf
+    · exact ih (by omega) fl hfl
+  | case2 first h =>
+    intro fl hfl
+    simp at hfl
+    subst hfl
+    simpa using hf
+
+theorem splicing_eq (ramp : Nat → α) (ns w ov : Nat) (hov : ov < w) (fuel : Nat) (hf : ns < fuel) (amp0 : Nat → α) :
+    runOps ramp ov amp0 (Src.C17.wg_splicing ns w ov fuel) = modelSplicing ramp ns w ov := by
+  unfold Src.C17.wg_splicing modelSplicing
+  rw [firstlast_eq ns w ov hov fuel hf]
+  simp only [List.append_nil]
+  have hmem : ∀ fl ∈ Window.firstlast ns w ov, fl.1 ≤ fl.2 ∧ (fl.2 ≠ ns → fl.2 = fl.1 + w) := by
+    intro fl hfl
+    unfold Window.firstlast at hfl
+    simp only [hov, if_true] at hfl
+    have h := (Window.aux_mem ns w ov 0 fl hfl).2.1
+    have h0 := aux_start_le ns w ov 0 (by omega) fl hfl
+    constructor <;> omega
+  generalize Window.firstlast ns w ov = L at hmem
+  induction L generalizing amp0 with
+  | nil => rfl
+  | cons a L ih =>
+    have ha := hmem a (List.mem_cons_self ..)
+    have ih' := fun amp => ih amp (fun fl hfl => hmem fl (List.mem_cons_of_mem _ hfl))
+    simp only [List.map_cons, List.flatMap_cons, cast2]
+    have hlen : ((a.2 : Int) - (a.1 : Int)).toNat = a.2 - a.1 := by omega
+    have key := runOps_window ramp ov amp0 (a.1 : Int) (a.2 : Int) (ov : Int) ((a.2 : Int) - (a.1 : Int) - (ov : Int))
+      (decide ((a.1 : Int) ≠ 0)) (decide ((a.2 : Int) ≠ (ns : Int)))
+    generalize hF : (a.1 : Int) = F at *
+    generalize hZ : (a.2 : Int) = Z at *
+    by_cases h1 : F = 0 <;> by_cases h2 : Z = (ns : Int)
+    all_goals
+      simp only [ne_eq, h1, h2, not_true_eq_false, not_false_eq_true, if_true, if_false, List.cons_append, List.nil_append,
+        decide_true, decide_false, Bool.false_eq_true, List.append_nil] at key hlen ⊢
+      rw [key, ih', hlen]
+      congr 1
+      refine Prod.ext rfl (Prod.ext rfl ?_)
+      apply List.map_congr_left
+      intro i hi
+      have hi' := List.mem_range.mp hi
+      simp only [Window.ampAt]
+      repeat' split
+      all_goals first | rfl | (exfalso; omega) | (congr 1; omega)
+end splicing
+
 end IblVerif.Tie.C17
